@@ -35,7 +35,7 @@ Section Model9.
     if listing_matches (rs_reg x) o then
       let g' := replay_into W (fresh_reg (generation (rs_reg x))) (fst o) (snd o) in
       let s1 := set s r (mkRS g' (rs_caches x) (rs_bases x) (rs_ro x)
-                              (match rs_flavour x with Push => [] | Verifying => rs_subs x end)
+                              (rs_subs x)       (* __init__ keeps an existing _v_subregistries *)
                               (rs_vro x) (rs_vgen x) (rs_flavour x)) in
       (after_bump s1 r, [])
     else (s, [777]).
